@@ -3,6 +3,7 @@
 # Confirms a seeded change in a scratch copy outside /repo and /verif (compiles, repository tests pass, demo fails with / passes
 # without it), runs the named checks against the scratch copy (VERIF_REPO), prints a verdict per check, and removes the copy.
 set -u
+HOME_VERIF=$(cd "$(dirname "$0")/.." && pwd)
 PATCH=$(readlink -f "$1"); DEMO="$2"; shift 2
 S=$(mktemp -d /tmp/mutant-XXXXXX)
 cp -r /repo/spec_classes /repo/tests /repo/pyproject.toml "$S"/ 2>/dev/null
@@ -12,7 +13,7 @@ if [ "$DEMO" != "-" ]; then PYTHONPATH="$S" /venv/bin/python demo.py >/dev/null 
 patch -p1 -s < "$PATCH" || { echo "PATCH DOES NOT APPLY"; rm -rf "$S"; exit 3; }
 PYTHONPATH="$S" /venv/bin/python -m pytest -q -p no:cacheprovider -x 2>&1 | tail -1
 if [ "$DEMO" != "-" ]; then PYTHONPATH="$S" /venv/bin/python demo.py >/dev/null 2>&1; echo "demo on mutant: exit $?"; fi
-cd /verif
+cd "$HOME_VERIF"
 for c in "$@"; do
   OUT=$(VERIF_REPO="$S" VERIF_SCRATCH_OUT="$S/out" ./check "$c" 2>&1); RC=$?
   echo "check $c on mutant: exit $RC  $(echo "$OUT" | grep -c '^VIOLATION') VIOLATION lines"
